@@ -30,6 +30,8 @@ type Var struct {
 type Feat struct {
 	Tag   string `json:"tag"`
 	Value uint32 `json:"value"`
+	Start int    `json:"start,omitempty"` // cluster range of the feature ("probe" only);
+	End   int    `json:"end,omitempty"`   // End <= 0: to the end of the buffer
 }
 
 // Op is one operation of one goroutine. F indexes Program.Pool. Y is the scheduling action taken
@@ -55,6 +57,7 @@ type Op struct {
 	Stretch float32  `json:"stretch,omitempty"`
 	Fonts   []int    `json:"fonts,omitempty"` // pool indexes (fixed font list of "split")
 	Dmg     []Damage `json:"dmg,omitempty"`   // damaged variants of the font file ("parsedamaged")
+	Ptem    float32  `json:"ptem,omitempty"`  // point size of the hb font ("probe": AAT tracking)
 	Flags   int      `json:"flags,omitempty"` // harfbuzz.ShappingOptions of "hbshape"
 	Level   int      `json:"level,omitempty"` // harfbuzz.ClusterLevel of "hbshape"
 }
@@ -104,6 +107,7 @@ const (
 	kFmQuery   = "fmquery"      // FontMap.SetQuery / SetScript
 	kFmResolve = "fmresolve"    // FontMap.ResolveFace / FontLocation / FontMetadata
 	kFmSystem  = "fmsystem"     // FontMap.UseSystemFonts ("multiple font maps may call this method concurrently")
+	kProbe     = "probe"        // Buffer.Shape with a fresh face (V: variations), hb font and buffer: the plan is compiled each time
 	kParse     = "parse"        // font.ParseTTC of the pool font's file, inside the goroutine
 	kParseDmg  = "parsedamaged" // font.ParseTTC of damaged variants of the pool font's file (error paths)
 )
@@ -111,7 +115,7 @@ const (
 // heavy reports whether an operation of this kind decodes outlines or shapes (non-triviality rule).
 func heavy(op Op) bool {
 	switch op.K {
-	case kExtents, kOutline, kHbShape, kShape:
+	case kExtents, kOutline, kHbShape, kShape, kProbe:
 		return true
 	case kSplit:
 		return op.B == 1
@@ -659,6 +663,47 @@ func (st *gstate) exec(op Op) (res []byte, panicMsg string) {
 		feats := make([]harfbuzz.Feature, len(op.Feat))
 		for i, ft := range op.Feat {
 			feats[i] = harfbuzz.Feature{Tag: tag(ft.Tag), Value: ft.Value, Start: harfbuzz.FeatureGlobalStart, End: harfbuzz.FeatureGlobalEnd}
+		}
+		b.Shape(hf, feats)
+		o.i(int64(len(b.Info)))
+		for i, info := range b.Info {
+			o.u(uint64(info.Glyph))
+			o.i(int64(info.Cluster))
+			o.x(uint64(info.Mask))
+			p := b.Pos[i]
+			o.i(int64(p.XAdvance))
+			o.i(int64(p.YAdvance))
+			o.i(int64(p.XOffset))
+			o.i(int64(p.YOffset))
+		}
+
+	case kProbe:
+		// Everything fresh, as in a program that shapes one string: new face on the shared font,
+		// variations, hb font, buffer; Dir is a harfbuzz.Direction here (4 LTR, 5 RTL, 6 TTB, 7 BTT).
+		face := font.NewFace(st.pool[f])
+		if len(op.V) > 0 {
+			vars := make([]font.Variation, len(op.V))
+			for i, v := range op.V {
+				vars[i] = font.Variation{Tag: tag(v.Tag), Value: v.Value}
+			}
+			face.SetVariations(vars)
+		}
+		hf := harfbuzz.NewFont(face)
+		hf.Ptem = op.Ptem
+		b := harfbuzz.NewBuffer()
+		b.AddRunes(op.R, 0, -1)
+		b.Props.Direction = harfbuzz.Direction(op.Dir)
+		b.Props.Script = script(op.Script)
+		b.Props.Language = language.NewLanguage(op.Lang)
+		if op.Dir == 0 || op.Script == "" {
+			b.GuessSegmentProperties()
+		}
+		feats := make([]harfbuzz.Feature, len(op.Feat))
+		for i, ft := range op.Feat {
+			feats[i] = harfbuzz.Feature{Tag: tag(ft.Tag), Value: ft.Value, Start: ft.Start, End: ft.End}
+			if ft.End <= 0 {
+				feats[i].End = harfbuzz.FeatureGlobalEnd
+			}
 		}
 		b.Shape(hf, feats)
 		o.i(int64(len(b.Info)))
